@@ -524,6 +524,15 @@ inductive Tree
   | list (kids : List Tree)
   deriving Repr
 
+def Tree.kids : Tree → List Tree
+  | .node _ k => k
+  | .list k => k
+  | _ => []
+
+def Tree.leafVal : Tree → Option Val
+  | .leaf v => some v
+  | _ => none
+
 def fpFields : List Fld :=
   [.fam, .name, .const, .orig, .geom, .slot 0, .slot 1, .slot 2, .slot 3, .distr, .data, .value, .dens, .lik, .prior,
    .gauss, .args]
